@@ -4,6 +4,7 @@ import (
 	"crypto/sha1"
 	"encoding/json"
 	"fmt"
+	"golang.org/x/tools/go/ssa"
 	"os"
 	"path/filepath"
 	"sort"
@@ -22,6 +23,8 @@ type Obligation struct {
 }
 
 type Report struct {
+	relaxCount [][]string
+	movedRows  []movedRowsSpec
 	prop       string
 	tier       string
 	seed       int
@@ -36,6 +39,7 @@ type Report struct {
 	notes      []string
 	noEvidence bool
 	extra      map[string]interface{}
+	decidedBy  [][3]string // shape rule, deciding fold rule, why the fold covers the clause
 }
 
 func newReport(prop, tier string, seed int) *Report {
@@ -142,7 +146,207 @@ func loadKnown() []knownFinding {
 	return kf.Findings
 }
 
+// DecidedBy registers that the clause a shape rule (a matcher over the syntax of one implementation) stands for is
+// decided semantically by a fold rule of the same run: when the matcher does not recognise the code - after a
+// refactoring - but the fold rule holds on its whole declared domain, the shape rule's obligations are discharged by
+// it. A genuine deviation makes the fold rule fail too, and then nothing is discharged.
+func (r *Report) DecidedBy(shapeRule, foldRule, why string) {
+	r.decidedBy = append(r.decidedBy, [3]string{shapeRule, foldRule, why})
+}
+
+// DecidedByKeys is DecidedBy restricted to the obligations of the shape rule whose key ends in one of the suffixes
+// (the others are decided by folds of their own and stand).
+func (r *Report) DecidedByKeys(shapeRule, foldRule, why string, suffixes ...string) {
+	r.decidedBy = append(r.decidedBy, [3]string{shapeRule + "\x00" + strings.Join(suffixes, "\x00"), foldRule, why})
+}
+
+// DecidedWhenUndecided is DecidedByKeys for a shape rule that is itself a fold of a fragment of the function: only
+// its "undecided" obligations (the fragment was not found or left the foldable language) are discharged by the whole
+// fold; a deviation the fragment fold reports stands.
+func (r *Report) DecidedWhenUndecided(shapeRule, foldRule, why string, suffixes ...string) {
+	r.decidedBy = append(r.decidedBy, [3]string{shapeRule + "\x00" + strings.Join(suffixes, "\x00") + "\x00\x01undecided", foldRule, why})
+}
+
+// RelaxCountWhen says that every obligation of a shape rule is covered by one of the given fold rules (through
+// DecidedByKeys): when all of them hold on their whole domains, the number of constructs the matcher recognised says
+// nothing, and the rule's instance minimum is dropped.
+func (r *Report) RelaxCountWhen(shapeRule string, foldRules ...string) {
+	r.relaxCount = append(r.relaxCount, append([]string{shapeRule}, foldRules...))
+}
+
+func (r *Report) foldHolds(fold string) bool {
+	n := 0
+	for _, o := range r.obls {
+		if o.Rule == fold {
+			n++
+			if !o.OK {
+				return false
+			}
+		}
+	}
+	return n > 0 && n >= r.minCounts[fold]
+}
+
+func (r *Report) applyDecidedBy() {
+	defer func() {
+		for _, rc := range r.relaxCount {
+			all := true
+			for _, f := range rc[1:] {
+				all = all && r.foldHolds(f)
+			}
+			if all {
+				r.minCounts[rc[0]] = 0
+			}
+		}
+	}()
+	for _, d := range r.decidedBy {
+		shape, fold, why := d[0], d[1], d[2]
+		var suffixes []string
+		onlyUndecided := false
+		if parts := strings.Split(shape, "\x00"); len(parts) > 1 {
+			shape, suffixes = parts[0], parts[1:]
+			if suffixes[len(suffixes)-1] == "\x01undecided" {
+				onlyUndecided, suffixes = true, suffixes[:len(suffixes)-1]
+			}
+		}
+		covered := func(key string) bool {
+			if suffixes == nil {
+				return true
+			}
+			for _, sfx := range suffixes {
+				if strings.HasSuffix(key, sfx) {
+					return true
+				}
+			}
+			return false
+		}
+		// (a decider written "A+B" is two fold rules that must both hold: one per side of an agreement)
+		holds := true
+		for _, f := range strings.Split(fold, "+") {
+			holds = holds && r.foldHolds(f)
+		}
+		if !holds {
+			continue
+		}
+		failing := 0
+		for i := range r.obls {
+			o := &r.obls[i]
+			if o.Rule == shape && !o.OK && covered(o.Key) && (!onlyUndecided || o.Kind == "undecided") {
+				failing++
+				o.Msg = fmt.Sprintf("the matcher does not recognise this code (%s: %s); the clause is decided by %s, which holds on its whole domain (%s)", o.Kind, o.Msg, fold, why)
+				o.OK, o.Kind = true, ""
+			}
+		}
+		// the matcher's instance count says nothing once the fold has decided
+		if suffixes == nil {
+			r.minCounts[shape] = 0
+		}
+		if failing > 0 {
+			r.Note(fmt.Sprintf("%s: %d obligation(s) whose code the matcher did not recognise were decided by %s", shape, failing, fold))
+		}
+	}
+}
+
+// MovedRows registers a frozen table (keys "function:kind#ordinal") of a rule for the helper transfer: a failing site
+// that lies in an unexported function called from exactly one function (which may itself be such a helper, up to three
+// levels) takes over a row the table holds for that function and kind when the site the row names no longer exists -
+// the statement was moved into the helper, and the row's reason goes with it.
+func (r *Report) MovedRows(rule string, frozen map[string]string) {
+	r.movedRows = append(r.movedRows, movedRowsSpec{rule, frozen})
+}
+
+type movedRowsSpec struct {
+	rule   string
+	frozen map[string]string
+}
+
+func (r *Report) applyMovedRows(c *Ctx) {
+	if len(r.movedRows) == 0 || c == nil {
+		return
+	}
+	byName := map[string]*ssa.Function{}
+	for _, f := range c.repoFuncs() {
+		byName[shortFn(f)] = f
+	}
+	cg := c.CG()
+	for _, spec := range r.movedRows {
+		present, taken := map[string]bool{}, map[string]bool{}
+		for _, o := range r.obls {
+			if o.Rule == spec.rule {
+				present[o.Key] = true
+			}
+		}
+		for i := range r.obls {
+			o := &r.obls[i]
+			if o.Rule != spec.rule || o.OK || o.Kind != "violation" {
+				continue
+			}
+			colon, hash := strings.LastIndex(o.Key, ":"), strings.LastIndex(o.Key, "#")
+			if colon < 0 || hash < colon {
+				continue
+			}
+			kind := o.Key[colon+1 : hash]
+			f := byName[o.Key[:colon]]
+			// the same function first: when another site of the function moved out, the ordinals of the ones that stay
+			// shift down, and a row of the function is left without its site
+			same := ""
+			for k := 0; k < 12; k++ {
+				cand := fmt.Sprintf("%s:%s#%d", o.Key[:colon], kind, k)
+				if _, ok := spec.frozen[cand]; ok && !present[cand] && !taken[cand] {
+					same = cand
+					break
+				}
+			}
+			if same != "" {
+				taken[same] = true
+				o.Msg = fmt.Sprintf("frozen: (row %s of this function: the ordinals shifted when another site of it moved) %s", same, spec.frozen[same])
+				o.OK, o.Kind = true, ""
+				continue
+			}
+			for depth := 0; depth < 3 && f != nil; depth++ {
+				if f.Object() == nil || f.Object().Exported() {
+					break
+				}
+				n := cg.Nodes[f]
+				if n == nil {
+					break
+				}
+				callers := map[*ssa.Function]bool{}
+				for _, e := range n.In {
+					if e.Caller.Func != f {
+						callers[e.Caller.Func] = true
+					}
+				}
+				if len(callers) != 1 {
+					break
+				}
+				var caller *ssa.Function
+				for cf := range callers {
+					caller = cf
+				}
+				row := ""
+				for k := 0; k < 12; k++ {
+					cand := fmt.Sprintf("%s:%s#%d", shortFn(caller), kind, k)
+					if _, ok := spec.frozen[cand]; ok && !present[cand] && !taken[cand] {
+						row = cand
+						break
+					}
+				}
+				if row != "" {
+					taken[row] = true
+					o.Msg = fmt.Sprintf("frozen: (row %s, whose site now lies in this helper of that function) %s", row, spec.frozen[row])
+					o.OK, o.Kind = true, ""
+					break
+				}
+				f = caller
+			}
+		}
+	}
+}
+
 func (r *Report) finish(start time.Time, c *Ctx) int {
+	r.applyMovedRows(c)
+	r.applyDecidedBy()
 	// instance minima
 	counts := map[string]int{}
 	for _, o := range r.obls {
